@@ -155,8 +155,23 @@ fn extra_stubs(common: &Path) -> String {
         if params.contains("self") {
             continue;
         }
-        let plist: Vec<String> = params
-            .split(',')
+        // split at top-level commas only (`Vec<(usize, usize)>` is one parameter)
+        let mut pieces: Vec<String> = vec![String::new()];
+        let mut d = 0i32;
+        for ch in params.chars() {
+            match ch {
+                '<' | '(' | '[' => d += 1,
+                '>' | ')' | ']' => d -= 1,
+                _ => {}
+            }
+            if ch == ',' && d == 0 {
+                pieces.push(String::new());
+            } else {
+                pieces.last_mut().unwrap().push(ch);
+            }
+        }
+        let plist: Vec<String> = pieces
+            .iter()
             .map(|p| p.trim())
             .filter(|p| !p.is_empty())
             .enumerate()
